@@ -301,7 +301,7 @@ func cutEdges(fn *ssa.Function, pred func(f Fact) bool) map[Edge]bool {
 		}
 
 		for idx, branch := range []bool{true, false} {
-			for _, f := range edgeFacts(ifi.Cond, branch) {
+			for _, f := range withCellFacts(edgeFacts(ifi.Cond, branch)) {
 				if pred(f) {
 					cuts[Edge{b, idx}] = true
 
@@ -566,6 +566,19 @@ func derivesFrom(v ssa.Value, isSource func(ssa.Value) bool, through func(id str
 		case *ssa.BinOp:
 			return rec(x.X) || rec(x.Y)
 		case *ssa.UnOp:
+			if x.Op == token.MUL {
+				// load of a local variable cell: follow what was stored
+				if vals, ok := storedValues(x.X); ok {
+					for _, sv := range vals {
+						if rec(sv) {
+							return true
+						}
+					}
+
+					return false
+				}
+			}
+
 			return rec(x.X)
 		case *ssa.Slice:
 			return rec(x.X)
@@ -631,3 +644,181 @@ func sortedKeys[M ~map[string]V, V any](m M) []string {
 }
 
 func sprintType(v any) string { return fmt.Sprintf("%T", v) }
+
+// storedValues: if addr is a local variable cell (an Alloc, or a FreeVar bound
+// to an Alloc of an enclosing function) whose address does not escape other
+// than into closures, return every value stored into it anywhere in the
+// function nest. ok=false when addr is not such a cell.
+func storedValues(addr ssa.Value) (vals []ssa.Value, ok bool) {
+	cell := localCell(addr)
+	if cell == nil {
+		return nil, false
+	}
+
+	root := cell.Parent()
+	for root.Parent() != nil {
+		root = root.Parent()
+	}
+
+	var visit func(f *ssa.Function)
+
+	visit = func(f *ssa.Function) {
+		allInstrs(f, func(in ssa.Instruction) {
+			if st, isStore := in.(*ssa.Store); isStore && localCell(st.Addr) == cell {
+				vals = append(vals, st.Val)
+			}
+		})
+
+		for _, a := range f.AnonFuncs {
+			visit(a)
+		}
+	}
+
+	visit(root)
+
+	return vals, true
+}
+
+// localCell resolves an address to the Alloc it denotes: the Alloc itself or a
+// FreeVar bound (through MakeClosure) to an Alloc in an enclosing function.
+func localCell(addr ssa.Value) *ssa.Alloc {
+	switch x := addr.(type) {
+	case *ssa.Alloc:
+		return x
+	case *ssa.FreeVar:
+		fn := x.Parent()
+		parent := fn.Parent()
+
+		if parent == nil {
+			return nil
+		}
+
+		idx := -1
+
+		for i, fv := range fn.FreeVars {
+			if fv == x {
+				idx = i
+			}
+		}
+
+		var out *ssa.Alloc
+
+		var visit func(f *ssa.Function)
+
+		visit = func(f *ssa.Function) {
+			allInstrs(f, func(in ssa.Instruction) {
+				if mc, ok := in.(*ssa.MakeClosure); ok && mc.Fn == fn && idx >= 0 && idx < len(mc.Bindings) {
+					if c := localCell(mc.Bindings[idx]); c != nil {
+						out = c
+					}
+				}
+			})
+		}
+
+		visit(parent)
+
+		return out
+	}
+
+	return nil
+}
+
+// resolveLocal looks through loads of single-assignment local cells (variables
+// captured by closures are Allocs in SSA) and identity conversions.
+func resolveLocal(v ssa.Value) ssa.Value {
+	for i := 0; i < 8; i++ {
+		v = stripValue(v)
+
+		u, ok := v.(*ssa.UnOp)
+		if !ok || u.Op != token.MUL {
+			return v
+		}
+
+		vals, ok := storedValues(u.X)
+		if !ok {
+			return v
+		}
+
+		// ignore zero-value initialisations
+		var real []ssa.Value
+
+		for _, sv := range vals {
+			if c, isC := sv.(*ssa.Const); isC && (c.Value == nil) {
+				continue
+			}
+
+			real = append(real, sv)
+		}
+
+		if len(real) != 1 {
+			return v
+		}
+
+		v = real[0]
+	}
+
+	return v
+}
+
+// withCellFacts adds, for every fact about a load of a local variable cell
+// (named results and variables captured by closures are cells in SSA), the
+// same fact about the value most recently stored into that cell.
+func withCellFacts(facts []Fact) []Fact {
+	out := facts
+
+	for _, f := range facts {
+		if f.V == nil {
+			continue
+		}
+
+		if u, ok := f.V.(*ssa.UnOp); ok && u.Op == token.MUL {
+			if v := cellValueAt(u); v != nil {
+				g := f
+				g.V = v
+				out = append(out, g)
+			}
+		}
+	}
+
+	return out
+}
+
+// cellValueAt returns the value held by a local cell at the point of the load:
+// the last store in the same block before the load, else the last store in
+// the nearest dominating block provided no other block stores to the cell in
+// between (approximated: exactly one storing block dominates and it is the
+// immediate dominator chain's first hit).  nil when unknown.
+func cellValueAt(load *ssa.UnOp) ssa.Value {
+	cell := localCell(load.X)
+	if cell == nil {
+		return nil
+	}
+
+	b := load.Block()
+	idx := len(b.Instrs)
+
+	for i, in := range b.Instrs {
+		if in == ssa.Instruction(load) {
+			idx = i
+		}
+	}
+
+	for blk := b; blk != nil; blk = blk.Idom() {
+		for i := idx - 1; i >= 0; i-- {
+			if st, ok := blk.Instrs[i].(*ssa.Store); ok && localCell(st.Addr) == cell {
+				return st.Val
+			}
+		}
+
+		if next := blk.Idom(); next != nil {
+			idx = len(next.Instrs)
+			// a merge point whose other predecessors may have stored: give up
+			// unless the idom is the only predecessor
+			if len(blk.Preds) != 1 {
+				return nil
+			}
+		}
+	}
+
+	return nil
+}
